@@ -230,6 +230,12 @@ fn main() {
         idx += 1;
     }
     if args.list_targets { for (site, kind, hits) in noise::known_targets() { println!("TARGET {:#x} {} {}", site, kind, hits); } }
+    {
+        use std::sync::atomic::Ordering::Relaxed;
+        let (w, p) = (noise::SPURIOUS_WAITS.load(Relaxed), noise::SPURIOUS_PARKS.load(Relaxed));
+        if w > 0 { Agg::bump(&mut agg.other, "spurious_wakeups_injected:condvar_wait", w); }
+        if p > 0 { Agg::bump(&mut agg.other, "spurious_wakeups_injected:thread_park", p); }
+    }
     write_out(&agg, &args, t0.elapsed().as_secs_f64(), exit_reason);
     if cfg!(miri) && exit_reason != "stuck" {
         // leave through the normal end of main so that the interpreter's leak check runs; it insists on all threads being gone
